@@ -904,7 +904,7 @@ pub fn c08(ctx: &Ctx, rep: &mut Report) {
             if !rng.chance(1, 5) {
                 f.push('\n');
             }
-            let len = [10usize, 900, 1100, 3000, 20000, 70000][rng.below(6)];
+            let len = if i % 5 == 0 { 70000 } else { [10usize, 900, 1100, 3000, 20000, 70000][rng.below(6)] };
             while f.len() < len {
                 f.push(if rng.chance(1, 200) { '\n' } else { 'b' });
             }
@@ -950,6 +950,36 @@ pub fn c08(ctx: &Ctx, rep: &mut Report) {
                 runs.push(("compile > file, terminal on stdin", r));
             }
             let _ = std::fs::remove_file(&tf);
+        }
+        // sinks that cannot take everything: a device without space, and a reader that closes its end
+        // of the pipe while more than two pipe buffers' worth of bytes is still to come. Success may
+        // not be reported (an error status or death by SIGPIPE both count as reporting the failure).
+        // (redirected by a shell: reading /dev/full back, as run_stdout_to_file would, never ends)
+        let exe_path = std::env::current_exe().unwrap();
+        let full = cli::run(cli::Spec::new(&["-c", "exec \"$0\" compile \"$1\" > /dev/full", exe_path.to_str().unwrap(), jf.to_str().unwrap()]).exe(std::path::Path::new("/bin/bash")));
+        rep.evaluations += 1;
+        if !full.timed_out && full.spawn_error.is_none() {
+            rep.conclusive += 1;
+            rep.bump("c08-real-sink", "compile > /dev/full");
+            if full.success() {
+                rep.violation("C08:cli:device-full", format!("`fml compile > /dev/full` exits 0 although none of the {} bytes could be written", expected.len()), replay.clone());
+            }
+        }
+        let after = [0usize, 1, 5, 4096][rng.below(4)];
+        if expected.len() > after + 2 * 65536 + 4096 {
+            let early = cli::run_close_early(cli::Spec::new(&["compile", jf.to_str().unwrap()]), after);
+            rep.evaluations += 1;
+            if !early.timed_out && early.spawn_error.is_none() {
+                rep.conclusive += 1;
+                rep.bump("c08-real-sink", "compile | reader that closes early");
+                if early.success() {
+                    rep.violation(
+                        "C08:cli:reader-closes-early",
+                        format!("`fml compile | reader` exits 0 although the reader closed the pipe after {} of {} bytes", after, expected.len()),
+                        replay.clone(),
+                    );
+                }
+            }
         }
         for (how, r) in runs {
             rep.evaluations += 1;
